@@ -138,6 +138,10 @@ def check_project(doc, out_pkg="cli", core_pkg=None, naming="operationId", stale
             if f["kind"] == "import" and ("blocked: not a runtime dependency" in f["raw"]):
                 loc = pkgcheck.location_class(f.get("origin"), out_pkg, core)
                 found.append((f"C12|blocked-import|{loc}|needs a module that is not a runtime dependency", f"{f['module']}: {f['raw']}"))
+            elif f["kind"] == "import" and "PackageNotFoundError" in f["raw"]:
+                # the interpreter has no distribution metadata of the generator either (it is not installed there)
+                loc = pkgcheck.location_class(f.get("origin"), out_pkg, core)
+                found.append((f"C12|blocked-import|{loc}|needs the installed distribution of a package that is not a runtime dependency", f"{f['module']}: {f['raw']}"))
         # byte equality of the runtime files: every emitted core module that has a counterpart shipped in the generator's
         # core package must be that file byte for byte, and the documented runtime modules must all be there
         core_dir = pkgcheck.pkg_dir(root, core)
